@@ -91,9 +91,18 @@ Section WithDistance.
   (* NoneFilter.filter_data:
        for msg in data:
            if all(getattr(msg, attr, None) is not None for attr in self.attrs):
-               yield msg *)
-  Definition none_body (attrs : list string) (m : pymsg) : M bool :=
-    Ok (forallb (fun attr => py_is_not_none (py_getattr_d m attr ANone)) attrs).
+               yield msg
+     all() pulls the generator expression left to right and stops at the first falsy element: an attribute after
+     the first None one is not read (so a getter that would raise there is not reached); getattr with a default
+     absorbs AttributeError only, any other exception of a getter propagates out of all() and kills the generator. *)
+  Fixpoint none_all (m : pymsg) (attrs : list string) : M bool :=
+    match attrs with
+    | [] => Ok true
+    | attr :: rest =>
+      v <- py_getattr_d m attr ANone ;;
+      if py_is_not_none v then none_all m rest else Ok false
+    end.
+  Definition none_body (attrs : list string) (m : pymsg) : M bool := none_all m attrs.
 
   (* MessageTypeFilter.filter_data:
        for msg in data:
@@ -103,6 +112,15 @@ Section WithDistance.
   Definition message_type_body (types : list Z) (m : pymsg) : M bool :=
     if negb (existsb (Z.eqb (pm_type m)) types) then Ok false else Ok true.
 
+  (* getattr(msg, 'lat', None) is not None and getattr(msg, 'lon', None) is not None
+     (`and` evaluates its right operand only when the left one is true) *)
+  Definition has_lat_lon (m : pymsg) : M bool :=
+    lat <- py_getattr_d m "lat" ANone ;;
+    if py_is_not_none lat then
+      lon <- py_getattr_d m "lon" ANone ;;
+      Ok (py_is_not_none lon)
+    else Ok false.
+
   (* DistanceFilter.filter_data (repaired):
        for msg in data:
            if getattr(msg, 'lat', None) is not None and getattr(msg, 'lon', None) is not None:
@@ -110,7 +128,8 @@ Section WithDistance.
                    continue
            yield msg *)
   Definition distance_body (ref_lat_lon : lat_lon) (distance_km : ratio) (m : pymsg) : M bool :=
-    if py_is_not_none (py_getattr_d m "lat" ANone) && py_is_not_none (py_getattr_d m "lon" ANone) then
+    c <- has_lat_lon m ;;
+    if c then
       lat <- py_getattr m "lat" ;;
       lon <- py_getattr m "lon" ;;
       h <- haversine ref_lat_lon (lat, lon) ;;
@@ -124,7 +143,8 @@ Section WithDistance.
                    continue
            yield msg *)
   Definition grid_body (lat_min lon_min lat_max lon_max : ratio) (m : pymsg) : M bool :=
-    if py_is_not_none (py_getattr_d m "lat" ANone) && py_is_not_none (py_getattr_d m "lon" ANone) then
+    c <- has_lat_lon m ;;
+    if c then
       lat <- py_getattr m "lat" ;;
       lon <- py_getattr m "lon" ;;
       g <- is_in_grid lat lon lat_min lon_min lat_max lon_max ;;
@@ -135,14 +155,16 @@ Section WithDistance.
        if hasattr(msg, 'lat'):
            if haversine(self.ref_lat_lon, (msg.lat, msg.lon)) >= self.distance_km: continue *)
   Definition distance_body_unrepaired (ref_lat_lon : lat_lon) (distance_km : ratio) (m : pymsg) : M bool :=
-    if py_hasattr m "lat" then
+    c <- py_hasattr m "lat" ;;
+    if c then
       lat <- py_getattr m "lat" ;;
       lon <- py_getattr m "lon" ;;
       h <- haversine ref_lat_lon (lat, lon) ;;
       if ratio_geb h distance_km then Ok false else Ok true
     else Ok true.
   Definition grid_body_unrepaired (lat_min lon_min lat_max lon_max : ratio) (m : pymsg) : M bool :=
-    if py_hasattr m "lat" then
+    c <- py_hasattr m "lat" ;;
+    if c then
       lat <- py_getattr m "lat" ;;
       lon <- py_getattr m "lon" ;;
       g <- is_in_grid lat lon lat_min lon_min lat_max lon_max ;;
@@ -230,18 +252,18 @@ End WithDistance.
    constructor is one Python lambda (written out in tools/props/C19.py). *)
 Inductive upred :=
 | UConst (b : bool)                 (* lambda m: b *)
-| UNotNone (name : string)          (* lambda m: getattr(m, name, None) is not None *)
-| UHas (name : string)              (* lambda m: hasattr(m, name) *)
-| UTruthy (name : string)           (* lambda m: getattr(m, name, None)         -- 0 and 0.0 are falsy *)
+| UNotNone (name : string)          (* lambda m: getattr(m, name, None) is not None   -- a getter may raise *)
+| UHas (name : string)              (* lambda m: hasattr(m, name)                     -- a getter may raise *)
+| UTruthy (name : string)           (* lambda m: getattr(m, name, None)         -- 0 and 0.0 are falsy; may raise *)
 | ULt (name : string) (q : ratio)     (* lambda m: getattr(m, name) < q           -- may raise *)
 | UTypeEq (t : Z).                  (* lambda m: m.msg_type == t *)
 
 Definition upred_eval (p : upred) (m : pymsg) : M bool :=
   match p with
   | UConst b => Ok b
-  | UNotNone name => Ok (py_is_not_none (py_getattr_d m name ANone))
-  | UHas name => Ok (py_hasattr m name)
-  | UTruthy name => Ok (py_truthy (py_getattr_d m name ANone))
+  | UNotNone name => v <- py_getattr_d m name ANone ;; Ok (py_is_not_none v)
+  | UHas name => py_hasattr m name
+  | UTruthy name => v <- py_getattr_d m name ANone ;; Ok (py_truthy v)
   | ULt name q => v <- py_getattr m name ;; py_lt v (ANum q)
   | UTypeEq t => Ok (pm_type m =? t)
   end.
